@@ -1050,6 +1050,16 @@ func c06WhitespaceIsContent(c *Ctx) {
 		if fn == nil || fn.Pkg() == nil || fn.Pkg().Path() != "strings" || !(strings.HasPrefix(fn.Name(), "Trim") || strings.HasPrefix(fn.Name(), "Fields")) {
 			return true
 		}
+		// only trimming of blanks matters (removing a trailing "\r" would be fine)
+		blanks := fn.Name() == "TrimSpace" || strings.HasPrefix(fn.Name(), "Fields")
+		if !blanks && len(call.Args) == 2 {
+			if cut, isC := constString(info, call.Args[1]); !isC || strings.ContainsAny(cut, " \t") {
+				blanks = true
+			}
+		}
+		if !blanks {
+			return true
+		}
 		for _, a := range call.Args {
 			if mentionsObj(info, a, linesP) {
 				bad = roleStr(info, call)
